@@ -1,5 +1,7 @@
 import RbV.Basic.Codec
 import RbV.Ref.SA
+import RbV.Model.Kasai
+import RbV.Model.Sus
 /-! Driver for property C03 (suffix array, LCP, shortest unique substrings, sampled suffix array).
 
 `c03 sa <text>                     => <sa>`                   accepted iff `checkSA text sa`
@@ -70,12 +72,13 @@ def verdict (toks : List String) (out : String) : String :=
         | some sa, some l, some sus =>
           if !checkSA t sa then "reject not-a-sorted-suffix-permutation" else
           let le := lcpRef t sa
-          if l ≠ le then "diff lcp:" ++ showIntList le else
+          if l ≠ le then "diff lcp " ++ showIntList le else
           let se := (List.range t.length).map (susRef t)
-          if sus ≠ se then "diff sus:" ++ showOptNatList se else
+          if sus ≠ se then "diff sus " ++ showOptNatList se else
           "ok" ++ (if t.length ≥ 4 then " nt" else "") ++ " lcp"
             ++ (if le.any (· ≥ 127) then " lcp>=127" else "")
             ++ (if le.any (· ≥ 1) then " lcp>=1" else "")
+            ++ (if Kasai.kasai t sa ≠ l || Sus.susModel sa l ≠ sus then " drift" else "")
         | _, _, _ => "bad-op output"
       | _ => (failOut out).getD "bad-op output"
     | none => "bad-op parse"
